@@ -188,10 +188,10 @@ func (c *simConn) Close() error {
 	return nil
 }
 
-func (c *simConn) LocalAddr() net.Addr              { return simAddr{} }
-func (c *simConn) RemoteAddr() net.Addr             { return simAddr{} }
-func (c *simConn) SetDeadline(time.Time) error      { return nil }
-func (c *simConn) SetReadDeadline(time.Time) error  { return nil }
+func (c *simConn) LocalAddr() net.Addr             { return simAddr{} }
+func (c *simConn) RemoteAddr() net.Addr            { return simAddr{} }
+func (c *simConn) SetDeadline(time.Time) error     { return nil }
+func (c *simConn) SetReadDeadline(time.Time) error { return nil }
 func (c *simConn) SetWriteDeadline(t time.Time) error {
 	c.mu.Lock()
 	c.deadlineArmed = !t.IsZero()
@@ -558,17 +558,17 @@ func (h *handler) Handle(ctx context.Context, body *protocol.Body) (*protocol.Bo
 }
 
 type session struct {
-	s      Session
-	idx    int
-	st     *core.Stats
-	conn   protocol.Connection
-	sc     *simConn
-	h      *handler
-	ready  bool // handshake done, connection ready
-	desync bool // a partial frame is pending: later frames are swallowed
-	peerID uint64
-	broke  bool // a fault was delivered that may legitimately break the stream
-	usedOK int  // successful exchanges
+	s               Session
+	idx             int
+	st              *core.Stats
+	conn            protocol.Connection
+	sc              *simConn
+	h               *handler
+	ready           bool // handshake done, connection ready
+	desync          bool // a partial frame is pending: later frames are swallowed
+	peerID          uint64
+	broke           bool // a fault was delivered that may legitimately break the stream
+	usedOK          int  // successful exchanges
 	closedByHarness bool
 	// pendingBytes are the delivered bytes that do not yet form complete frames (the script's own
 	// bookkeeping of where the reader stands in the byte stream).
@@ -813,7 +813,7 @@ func (x *session) run() *core.Violation {
 			return v
 		}
 		if x.depthTripped() {
-			return x.viol("read-recursion", "read-recursion rhp", "step %d (%s %s): after %d reads of the stream the connection's reader was %d or more call frames deep: the frame decoder recurses once per Read while a message is incomplete, so the call-stack depth is driven by how finely the peer slices a frame (a 64 MiB frame delivered a byte at a time needs more than the 1 GB a goroutine stack may grow to; exceeding that is a fatal, unrecoverable runtime error)", i, stp.K, stp.F, x.sc.reads, DepthLimit)
+			return x.viol("read-recursion-stream", "read-recursion rhp", "step %d (%s %s): after %d reads of the stream the connection's reader was %d or more call frames deep: the frame decoder recurses once per Read while a message is incomplete, so the call-stack depth is driven by how finely the peer slices a frame (a 64 MiB frame delivered a byte at a time needs more than the 1 GB a goroutine stack may grow to; exceeding that is a fatal, unrecoverable runtime error)", i, stp.K, stp.F, x.sc.reads, DepthLimit)
 		}
 	}
 	// Final exchange: a connection whose stream was not broken must still work.
@@ -1540,7 +1540,18 @@ func (StreamEngine) executeLocal(sc *core.Scenario, st *core.Stats) (*core.Viola
 		x := &session{s: s, idx: i, st: st}
 		var v *core.Violation
 		t0 := time.Now()
+		s0 := allocBytes()
 		pv, stack := core.Guard(func() { v = x.run() })
+		if used := allocBytes() - s0; v == nil && pv == nil && used > CallAllocLimit {
+			// One connection lifecycle with frames of at most 70 KB allocated more than the bound:
+			// confirm on a fresh connection before alarming.
+			y := &session{s: s, idx: i, st: core.NewStats()}
+			s1 := allocBytes()
+			pv2, _ := core.Guard(func() { _ = y.run() })
+			if again := allocBytes() - s1; pv2 == nil && again > CallAllocLimit {
+				return sViol("alloc", "alloc rhp", fmt.Sprintf("session %d (%s side, handshake %q): the connection lifecycle allocated %d MiB (and %d MiB when repeated) although no frame of the script is larger than 70 KB (bound %d MiB)", i, s.Side, s.HS, used>>20, again>>20, CallAllocLimit>>20)), true
+			}
+		}
 		if debugMeter && time.Since(t0) > 100*time.Millisecond {
 			fmt.Fprintf(os.Stderr, "STREAM-SLOW session %d took %v: %s\n", i, time.Since(t0), raw)
 		}
